@@ -3,7 +3,8 @@
    for NUChanged and Invalidated for NUInvalidated (really_run, Api.v). *)
 From stdpp Require Import base list option numbers.
 From Incr.Model Require Import Base Live Engine Api.
-From Incr.Proofs Require Import Handlers.
+From RecordUpdate Require Import RecordUpdate.
+From Incr.Proofs Require Import Pres Handlers HandlerQueue FrameHasGrow HandlerQueueEnd FrameHasInv HandlerChain.
 
 (* OnUpdateHandler::run is exactly the decision table [deliver] (Handlers.v), guarded by "created in
    an earlier stabilisation" *)
@@ -63,6 +64,44 @@ Theorem C09_change_is_never_lost :
   forall prev, prev <> PInvalidated -> is_Some (deliver prev NUChanged).
 Proof. exact changed_is_never_lost. Qed.
 
+(* ---- from "the node changed" to "its handlers are told": the queue.
+   [has_inv s]: every live node whose is_in_handle_after_stabilisation flag is set is on the state's
+   handle_after_stabilisation stack, and the stack names existing nodes only.  It holds in every state
+   of every history (both build profiles, whether or not operations panic). *)
+Theorem C09_flagged_nodes_are_on_the_stack_in_every_history :
+  forall fuel max_height dbg ops, Forall (fun e => has_inv e.2) (run_history fuel max_height dbg ops).
+Proof. exact history_has_inv. Qed.
+
+(* an unsuppressed result of a live node with at least one handler puts the node on the stack, whatever
+   happens afterwards (dependants recomputed directly, panics) *)
+Theorem C09_changed_node_with_handlers_is_queued :
+  forall fuel n old rc s x,
+    has_inv s -> nodes s !! n = Some x -> n_live x = true -> (0 < n_num_handlers x)%Z ->
+    n ∈ has_stack (maybe_change_value_manual fuel n old true rc s).2.
+Proof. exact mcv_manual_queues. Qed.
+
+(* nothing takes it off the stack before the propagation phase is over *)
+Theorem C09_queued_until_the_end_of_propagation :
+  forall fuel s n, n ∈ has_stack s -> n ∈ has_stack (stabilise_loop fuel s).2.
+Proof. exact queued_until_end_of_propagation. Qed.
+
+(* the first phase of stabilise_end is: bump the stabilisation number and apply the deferred writes
+   (which keep the stack), then empty the stack into the run queue ... *)
+Theorem C09_end_of_stabilise_in_two_steps :
+  forall s, stabilise_end_prepare s = (end_prepare_prefix ;;; end_prepare_queue) s.
+Proof. exact stabilise_end_prepare_split. Qed.
+
+Theorem C09_deferred_writes_keep_the_stack : pres Rhas end_prepare_prefix.
+Proof. exact has_end_prepare_prefix. Qed.
+
+(* ... where every node of the stack that is still alive gets an entry (node, report) — the report is
+   node_update_of (C09_node_report) — and the invariant is re-established with an empty stack *)
+Theorem C09_every_live_queued_node_is_reported :
+  forall s, has_inv s ->
+    exists s', end_prepare_queue s = (Ok tt, s') /\ has_inv s'
+      /\ (forall n x, n ∈ has_stack s -> nodes s !! n = Some x -> n_live x = true -> exists nu, (n, nu) ∈ run_ouh s').
+Proof. exact end_prepare_queue_spec. Qed.
+
 (* non-vacuity: the callbacks of a concrete history *)
 Example C09_nonvacuous :
   let h := [OpVar 1; OpObserve 0; OpSubscribe 0 (HFn 7 []); OpStabilise; OpStabilise; OpObserve 0; OpStabilise;
@@ -82,3 +121,9 @@ Print Assumptions C09_first_delivery_is_not_changed.
 Print Assumptions C09_nothing_after_invalidated.
 Print Assumptions C09_changed_only_when_node_changed.
 Print Assumptions C09_change_is_never_lost.
+Print Assumptions C09_flagged_nodes_are_on_the_stack_in_every_history.
+Print Assumptions C09_changed_node_with_handlers_is_queued.
+Print Assumptions C09_queued_until_the_end_of_propagation.
+Print Assumptions C09_end_of_stabilise_in_two_steps.
+Print Assumptions C09_deferred_writes_keep_the_stack.
+Print Assumptions C09_every_live_queued_node_is_reported.
